@@ -107,6 +107,7 @@ structure NodeD where
   mapOver : List Name
   mapMode : MapMode
   errMode : ErrMode
+  signalOuts : List Name := []        -- graph node: outputs that are ordering signals only (inner emit names), current names
   deriving Repr, Inhabited
 
 namespace NodeD
@@ -381,6 +382,12 @@ def elabLeaf (s : NodeSpec) : NodeD :=
     defaultOpen := s.defaultOpen, cache := s.cache, inner := 0
     mapOver := [], mapMode := .zip, errMode := .raise }
 
+/-- `_signal_only_outputs` (helpers.py): outputs of the inner graph that no inner node produces as DATA (a nested-graph node inside
+produces as data whatever it exposes that is not itself signal-only) -/
+def signalOnly (nodes : List NodeD) (outs : List Name) : List Name :=
+  outs.filter fun o => !(nodes.any fun n =>
+    if n.kind == .graph then n.outputs.contains o && !n.signalOuts.contains o else n.dataOuts.contains o)
+
 /-- elaborate a nested-graph node against the (already elaborated) inner graph -/
 def elabGraphNode (s : NodeSpec) (g : GraphD) : NodeD :=
   let cur := fun (p : Name) => renameOf s.inRen p
@@ -406,7 +413,8 @@ def elabGraphNode (s : NodeSpec) (g : GraphD) : NodeD :=
     innerBound := innerIns.filterMap fun p => (AL.get? g.spec.bound p).map fun v => (cur p, v)
     body := s.body, targets := [], multiTarget := false, fallback := .none
     defaultOpen := true, cache := false, inner := s.inner
-    mapOver := s.mapOver, mapMode := s.mapMode, errMode := s.errMode }
+    mapOver := s.mapOver, mapMode := s.mapMode, errMode := s.errMode
+    signalOuts := (signalOnly g.nodes (graphOutputs g.nodes)).map fun o => renameOf s.outRen o }
 
 def elabNode (done : List GraphD) (s : NodeSpec) : NodeD :=
   if s.kind == .graph then elabGraphNode s (done.getD s.inner default) else elabLeaf s
